@@ -1,6 +1,6 @@
 (* C05 — Stop/Destroy terminates and flushes everything accepted before it. Statements only
    (the queue part; logger kinds, Destroy order and descriptors are exercised by the harness). *)
-From LogV Require Import Base.Bytes Model.Async Proofs.AsyncProofs.
+From LogV Require Import Base.Bytes Model.Async Proofs.AsyncProofs Model.RollingConc Proofs.RollingConcProofs Proofs.RollingSerialProofs.
 Open Scope nat_scope.
 
 (* Stop called with no log call in progress, at any buffer occupancy, worker idle or holding an item:
@@ -29,6 +29,34 @@ Print Assumptions c05_stop_progress.
 Theorem c05_reachable_states_ok : forall cap pol s, reach (c_init cap pol) s -> stage_inv s.
 Proof. intros cap pol s H. destruct (reach_all cap pol s H) as [_ [_ [_ Hs]]]. exact Hs. Qed.
 Print Assumptions c05_reachable_states_ok.
+
+(* ---------------- "a running rolling file appender does not accumulate descriptors" on the interleaving model of
+   Write/rotate (any number of goroutines, any schedule, createFile failing anywhere), for executions whose rotations do not
+   overlap each other (sreach: a CAS is won only while no rotation is in flight) ---------------- *)
+
+(* at every moment every open descriptor is the current file, the retired one, or the one the rotation in flight has created *)
+Theorem c05_conc_descriptors_accounted : forall t0 s f, sreach (c_start t0) s -> c_fopen s f = true ->
+  f = c_file s \/ c_old s = Some f \/ exists t, fresh_of (c_thr s t) = Some f.
+Proof. exact serial_open_accounted. Qed.
+Print Assumptions c05_conc_descriptors_accounted.
+
+(* at most two whenever no call is inside rotate() *)
+Theorem c05_conc_two_descriptors_when_quiet : forall t0 s f, sreach (c_start t0) s -> (forall t, rot_of (c_thr s t) = None) ->
+  c_fopen s f = true -> f = c_file s \/ c_old s = Some f.
+Proof. exact serial_two_descriptors_when_quiet. Qed.
+Print Assumptions c05_conc_two_descriptors_when_quiet.
+
+(* the restriction to serial rotations is necessary: two overlapping rotations orphan a descriptor (open for good, neither current
+   nor retired, every goroutine back outside Write) - the named timing hypothesis of C13/C19 (a goroutine suspended between two
+   adjacent atomic operations of rotate() for a whole interval) *)
+Theorem c05_conc_overlap_can_leak :
+  exists s, creach (c_start 0) s /\ c_thr s 0 = RIdle /\ c_thr s 1 = RIdle /\ c_file s = 1 /\ c_old s = Some 0 /\ c_fopen s 2 = true /\ c_lost s = [].
+Proof. exact descriptor_can_leak. Qed.
+Print Assumptions c05_conc_overlap_can_leak.
+
+Example c05_conc_ex :
+  exists s, sreach (c_start 0) s /\ c_file s = 1 /\ c_old s = Some 0 /\ (forall t, rot_of (c_thr s t) = None) /\ c_fopen s 0 = true /\ c_fopen s 1 = true.
+Proof. exact serial_execution_exists. Qed.
 
 Example c05_ex :
   (* capacity 2, full buffer, worker holding an item: Stop delivers all three in order *)
